@@ -528,14 +528,14 @@ func ruleEnvChk(c *Ctx) {
 	c.R.Check(vObj != nil, "yae.Expr.envCheck", "looks the name up in the run-time env", cb.Pos(),
 		"v, ok := <run-time env>.Get(<callback name>)", "no lookup of the callback's name in the *val.Env parameter")
 	presence, equal := false, false
-	for _, a := range c.callsTo(cb.Body, "util.Assert") {
-		if len(a.Args) == 0 || a.Pos() < getPos {
+	for _, a := range c.asserted(cb.Body) {
+		if a.node.Pos() < getPos {
 			continue
 		}
-		if okObj != nil && c.objOf(a.Args[0]) == okObj {
+		if okObj != nil && c.objOf(a.cond) == okObj {
 			presence = true
 		}
-		if eq, ok := unparen(a.Args[0]).(*ast.CallExpr); ok && c.calleeName(eq) == "types.Equals" && len(eq.Args) == 2 {
+		if eq, ok := unparen(a.cond).(*ast.CallExpr); ok && c.calleeName(eq) == "types.Equals" && len(eq.Args) == 2 {
 			isTyP := func(e ast.Expr) bool { return c.objOf(e) == typeP }
 			isVT := func(e ast.Expr) bool {
 				se, ok := unparen(e).(*ast.SelectorExpr)
